@@ -621,6 +621,15 @@ func (rn *runner) evalShapes(s *proc.Server, w *world, rpName string, r *rand.Ra
 			}))
 		dump("tag!~", fmt.Sprintf("SELECT * FROM %s WHERE host !~ /^(%s)$/ GROUP BY *", from(mst), host), mst,
 			rowsOf(m, mst, func(k model.RowKey, _ map[string]model.Value) bool { return parseSeries(k.Series)["host"] != host }))
+		// "series that carry the tag": a negated pattern that matches the empty string is answered
+		// by scanning the values of the tag, another path than the other filters
+		dump("tag!~empty", fmt.Sprintf("SELECT * FROM %s WHERE region !~ /^$/ GROUP BY *", from(mst)), mst,
+			rowsOf(m, mst, func(k model.RowKey, _ map[string]model.Value) bool { return parseSeries(k.Series)["region"] != "" }))
+		dump("tag!~alt-or-empty", fmt.Sprintf("SELECT * FROM %s WHERE host !~ /^(%s|)$/ GROUP BY *", from(mst), host), mst,
+			rowsOf(m, mst, func(k model.RowKey, _ map[string]model.Value) bool {
+				h := parseSeries(k.Series)["host"]
+				return h != host && h != ""
+			}))
 		// field filter: threshold = median of fi values
 		var vals []int64
 		for _, row := range all {
